@@ -399,7 +399,7 @@ def parse_instr(line):
             cases.append((cv[1], c.next()[1:]))
         return I(ty, (v,), (dflt, tuple(cases)))
     if op == 'ret':
-        if c.peek() == 'void':
+        if c.peek() == 'void' and c.peek(1) != '(':       # `ret void (i8*)* %f` returns a function pointer
             return I(('void',), ())
         ty, v = parse_tv(c)
         return I(ty, (v,))
@@ -692,9 +692,11 @@ class Module:
             raise KeyError(dem)
         return l[0]
 
-    def find_re(s, pat):
+    def find_re(s, pat, local=False):
+        """functions whose demangled name matches; lambdas and other entities local to a function
+        (`f(args)::{lambda(...)#1}::operator()`) are not `f` and are left out unless asked for"""
         r = re.compile(pat)
-        return sorted(n for n in s.funcs if r.search(s.dem[n]))
+        return sorted(n for n in s.funcs if r.search(s.dem[n]) and (local or not ('{lambda' in s.dem[n] or ')::' in s.dem[n])))
 
     def struct_fields(s, name):
         r = s.structs.get(name)
